@@ -480,6 +480,8 @@ func kRun(r *vk.Run, prop string, scenarios []kScenario, c09, c13 bool, rule str
 		r.Finish("replay")
 	}
 	idx, n, child := r.Shard()
+	r.Assume("API bodies hold stateLock for their whole body (PlotWS: read lock) and the plotter holds it for steps 1 and 3, so gate granularity (idle, popped, step1.done, plot.returned, space.done) covers every order observable through states; unsynchronised accesses between gates are not enumerated",
+		"fake plot database: Plot() blocks until the scheduler delivers completion (progress 100) or abort; StopPlot aborts it", "at most 2 operations in flight; quiescence from runtime.Stack wait reasons; ants pool housekeeping goroutines ignored")
 	if !child {
 		r.RunShards(vk.Workers(), 1)
 		r.Finish(rule)
@@ -532,8 +534,6 @@ func kRun(r *vk.Run, prop string, scenarios []kScenario, c09, c13 bool, rule str
 	r.Set("deadlocked_executions", deadlocks)
 	r.Set("scenarios", per)
 	r.DistinctN(int(states))
-	r.Assume("API bodies hold stateLock for their whole body (PlotWS: read lock) and the plotter holds it for steps 1 and 3, so gate granularity (idle, popped, step1.done, plot.returned, space.done) covers every order observable through states; unsynchronised accesses between gates are not enumerated",
-		"fake plot database: Plot() blocks until the scheduler delivers completion (progress 100) or abort; StopPlot aborts it", "at most 2 operations in flight; quiescence from runtime.Stack wait reasons; ants pool housekeeping goroutines ignored")
 	r.Finish(rule)
 }
 
